@@ -458,9 +458,9 @@ OnEnable == (pc = "enabled") =>
 \* a second world of the same map: as long as it is disabled it is exactly as its handle returned it (silent, its own
 \* postponed events waiting), whatever is done to the world under test; once enabled it has heard its own on_add /
 \* on_world_load, once each per handler, and nothing else
-BystanderUndisturbed == (bw # NoBy) =>
-    IF ~bw.enabled THEN bw = Preload(TRUE)
-    ELSE /\ (~Lean => bw.queue = <<>> /\ bw.procs = ByLoaded.procs /\ bw.rows = ByLoaded.rows)
+BystanderUndisturbed == (bw # NoBy /\ ~Lean) =>
+    IF ~bw.enabled THEN bw = ByLoaded
+    ELSE /\ bw.queue = <<>> /\ bw.procs = ByLoaded.procs /\ bw.rows = ByLoaded.rows
          /\ \A h \in Handlers(ByDesc) : CallsOf(bw.log, h.who) = ExpCalls(bw, h.who, h.type, "file")
          /\ \A i \in DOMAIN bw.log : \E h \in Handlers(ByDesc) : h.who = bw.log[i].who
 
